@@ -587,7 +587,64 @@ def parse_step(text, nsym=8):
 
 
 def analytic_transfer(chain_texts, theta, Fblock):
-    """-> ('ok', p', diag F') | ('irregular', why) ; theta: list of mpf, Fblock: n x n list of mpf/None"""
+    """-> ('ok', p', diag F') | ('irregular', why) | ('nonfinite-F', p');  theta: list of mpf, Fblock: n x n list of mpf/None.
+    Stepwise numeric chain rule first; when an INTERMEDIATE value is singular (e.g. [{a1: 1/a1}, {a1: 1/a1}] at a1 = 0, whose
+    composite is the identity) the composite is formed symbolically from the inside out and evaluated instead."""
+    r = stepwise_transfer(chain_texts, theta, Fblock)
+    if r[0] == "irregular" and "finite at theta" in r[1]:
+        r2 = symbolic_transfer(chain_texts, theta, Fblock)
+        if r2 is not None:
+            return r2
+    return r
+
+
+def finish_transfer(u, J, Fblock):
+    import mpmath
+    try:
+        if abs(mpmath.det(J)) < mpmath.mpf(10) ** -30:
+            return ("irregular", "singular Jacobian")
+        Ji = mpmath.inverse(J)
+    except Exception:
+        return ("irregular", "singular Jacobian")
+    if any(x is None for row in Fblock for x in row):
+        return ("nonfinite-F", u)
+    n = len(u)
+    Fn = Ji.T * mpmath.matrix(Fblock) * Ji
+    return ("ok", u, [Fn[i, i] for i in range(n)])
+
+
+def symbolic_transfer(chain_texts, theta, Fblock):
+    """composite c = s_1 o ... o s_n built from the inside out (c <- s_m[a := c], m = n..1), cancelled, then evaluated"""
+    import mpmath
+    import sympy
+    n = len(theta)
+    syms = [sympy.Symbol("a%d" % i, real=True) for i in range(8)]
+    c = list(syms[:n])
+    try:
+        for text in reversed(chain_texts):
+            d, _ = parse_step(text)
+            inner = {syms[j]: c[j] for j in range(n)}
+            c = [sympy.cancel(d[i].subs(inner, simultaneous=True)) if i in d else c[i] for i in range(n)]
+        sub = {syms[i]: sympy.Float(mpmath.nstr(theta[i], 40), 40) for i in range(n)}
+        u, J = [], mpmath.zeros(n)
+        for i in range(n):
+            if {str(x) for x in c[i].free_symbols} - {"a%d" % j for j in range(n)}:
+                return None
+            val = sympy.N(c[i].subs(sub), 40)
+            if not val.is_finite or not val.is_real:
+                return None
+            u.append(mpmath.mpf(str(val)))
+            for j in range(n):
+                dv = sympy.N(sympy.diff(c[i], syms[j]).subs(sub), 40)
+                if not dv.is_finite or not dv.is_real:
+                    return None
+                J[i, j] = mpmath.mpf(str(dv))
+    except Exception:
+        return None
+    return finish_transfer(u, J, Fblock)
+
+
+def stepwise_transfer(chain_texts, theta, Fblock):
     import mpmath
     import sympy
     mpmath.mp.dps = 40
@@ -624,17 +681,7 @@ def analytic_transfer(chain_texts, theta, Fblock):
                 return ("irregular", "evaluation failed: %s" % type(ex).__name__)
         u = new
         J = Js * J
-    try:
-        if abs(mpmath.det(J)) < mpmath.mpf(10) ** -30:
-            return ("irregular", "singular Jacobian")
-        Ji = mpmath.inverse(J)
-    except Exception:
-        return ("irregular", "singular Jacobian")
-    if any(x is None for row in Fblock for x in row):
-        return ("nonfinite-F", u)
-    F = mpmath.matrix(Fblock)
-    Fn = Ji.T * F * Ji
-    return ("ok", u, [Fn[i, i] for i in range(n)])
+    return finish_transfer(u, J, Fblock)
 
 
 def fblock(u, maxp, n):
@@ -655,6 +702,9 @@ def fblock(u, maxp, n):
 
 def fnum(v):
     return float(v) if isinstance(v, str) else v.numerator / v.denominator
+
+
+SKIPPED = {}
 
 
 def spec_check(lib, v, toks, chain_texts=None):
@@ -692,6 +742,12 @@ def spec_check(lib, v, toks, chain_texts=None):
             bad.append(("C05:nonfinite-curvature", "the unique's Hessian block is not finite but the code length is %r" % cl, cl, "not finite"))
         return bad
     _, pp, Fd = tr
+    # outside the range of doubles (e.g. nested exp: p' = exp(exp(6)) ~ 1e207, F' = F/J^2 ~ 1e-417 underflows to 0 in the code):
+    # rounding/overflow is not part of the property's model; counted, not judged
+    big, tiny = mpmath.mpf("1e150"), mpmath.mpf("1e-150")
+    if any(abs(x) > big or (x != 0 and abs(x) < tiny) for x in pp) or any(abs(f) > big * big or (f != 0 and abs(f) < tiny * tiny) for f in Fd):
+        SKIPPED["float_range"] = SKIPPED.get("float_range", 0) + 1
+        return bad
     if any(not (f > 0) for f in Fd):
         if cl != math.inf:
             bad.append(("C05:nonpositive-curvature", "a transferred curvature is not positive (%s) but the code length is %r" % (
@@ -705,6 +761,11 @@ def spec_check(lib, v, toks, chain_texts=None):
     tbl = lambda D: fnum(v["table"].get(key_of(D), v["dflt"])) if v.get("table") is not None else None
     rel = lambda a, b: abs(a - b) <= 2e-6 * max(abs(a), abs(b), 1e-300)
     # the regular case: the unique's likelihood is finite and the map is regular at theta
+    if cl == math.inf:
+        bad.append(("C05:match-guard:nonempty-recoverable-chain" if texts else "C05:regular-inf",
+                    "the unique's likelihood is finite, the parameter map is recoverable and regular at theta and every transferred "
+                    "curvature is positive, but the code length is inf", cl, "a finite code length"))
+        return bad
     if math.isnan(nll):
         ok = bool(C) and (v["sympify"] != "ok" or v.get("table") is None or not math.isfinite(tbl(set(C))))
         if not ok:
@@ -823,12 +884,31 @@ def gen_broad_lib(R, nvar, ids):
 
 
 def impl_lib_any(lib):
+    if lib.get("impl") is not None:
+        return lib["impl"]
     if not lib.get("broad"):
         return impl_lib(lib)
     out = impl_lib({**lib, "variants": [{**v, "chain": []} for v in lib["variants"]]})
     for o, v in zip(out["variants"], lib["variants"]):
         o["chain"] = list(v["texts"])
     return out
+
+
+def lib_from_impl(il):
+    """a library in the driver's JSON format (as stored in a replay file) -> harness format"""
+    maxp = il["max_param"]
+    uniques = [{"n": None, "nll": tonum(u["nll"]), "theta": [tonum(t) for t in u["params"]], "flat": [tonum(f) for f in u["fish"]]}
+               for u in il["uniques"]]
+    variants = []
+    for v in il["variants"]:
+        n = 0
+        for j in range(maxp - 1, -1, -1):
+            if "a%d" % j in v["fcn"]:
+                n = j + 1
+                break
+        variants.append({"fcn": v["fcn"], "match": v["match"], "n": n, "chain": [], "texts": list(v["chain"]),
+                         "table": {k: tonum(x) for k, x in v["table"].items()}, "dflt": tonum(v["dflt"]), "sympify": v.get("sympify", "ok")})
+    return {"maxp": maxp, "exact": False, "uniques": uniques, "variants": variants, "P": 1, "broad": True, "impl": il}
 
 
 def stale_corpus_lib():
@@ -865,6 +945,8 @@ def search(ctx):
     extra += [gen_broad_lib(R, R.randint(10, 20), ids) for _ in range(nb)]
     extra += [gen_lib(R, R.randint(8, 20), 1, ids) for _ in range(4 if ctx.quick else 60)]
     replay = getattr(ctx, "replay", None)
+    if replay and isinstance(replay.get("input"), dict) and isinstance(replay["input"].get("library"), dict):
+        extra.insert(0, lib_from_impl(replay["input"]["library"]))
     try:
         wd = esrv.mkscratch("c05s")
         lj = os.path.join(wd, "libs.json")
@@ -929,12 +1011,150 @@ def search(ctx):
     real_search(ctx)
 
 
+GEN = os.path.join(esrv.VERIF, "harness", "corr", "gen_run.py")
+FIT = os.path.join(esrv.VERIF, "harness", "corr", "fit_run.py")
+
+
+def tonum(t):
+    f = float(t)
+    if math.isnan(f):
+        return NAN
+    if math.isinf(f):
+        return INF if f > 0 else NINF
+    return Fr(f)
+
+
+def real_library(ctx, fn_set, comp, data_dir):
+    """generate <fn_set>/compl_<comp> in the scratch copy (if absent), fit it on the small Gaussian data set with the REAL stages
+    fit, fisher, match, and collect everything match.main read and wrote"""
+    lib_dir = os.path.join(ctx.scratch, "esr", "function_library", fn_set, "compl_%d" % comp)
+    if not os.path.exists(os.path.join(lib_dir, "inv_subs_%d.txt" % comp)):
+        rc, out, err = esrv.run_py(ctx.scratch, GEN, [fn_set, str(comp)], timeout=1500)
+        if rc != 0 or "GEN-DONE" not in out:
+            raise RuntimeError("generation of %s n=%d failed: %s" % (fn_set, comp, err[-800:]))
+    run = "verif_c05_%s_%d" % (fn_set, comp)
+    rc, out, err = esrv.run_py(ctx.scratch, FIT, ["gauss", data_dir, "data.txt", run, fn_set, str(comp), "fit,fisher,match"], timeout=2500)
+    if rc != 0 or "FIT-DONE" not in out:
+        raise RuntimeError("fitting %s n=%d failed: %s" % (fn_set, comp, err[-800:]))
+    rc, out, err = esrv.run_py(ctx.scratch, IMPL, ["real", data_dir, "data.txt", run, fn_set, str(comp)], timeout=1500)
+    if rc != 0 or MARK not in out:
+        raise RuntimeError("collecting %s n=%d failed: %s" % (fn_set, comp, err[-800:]))
+    return json.loads(out.split(MARK, 1)[1])
+
+
 def real_search(ctx):
-    pass
+    """the same statement of C05 on REAL libraries fitted with the real GaussLikelihood (no stub): core_maths / keep_duplicates"""
+    import numpy as np
+    rep = ctx.report
+    todo = [("core_maths", 3), ("core_maths", 4)] if ctx.quick else [("core_maths", 3), ("core_maths", 4), ("keep_duplicates", 3),
+                                                                      ("keep_duplicates", 4), ("core_maths", 5)]
+    data_dir = esrv.mkscratch("c05d")
+    rs = np.random.RandomState(ctx.seed % (2 ** 31))
+    xs = np.linspace(0.5, 3.0, 24)
+    np.savetxt(os.path.join(data_dir, "data.txt"), np.transpose([xs, 1.7 * xs ** 2 + 0.1 * rs.randn(24), 0.1 * np.ones(24)]))
+    stats = {}
+    reported = set()
+    counts = {}
+    for fn_set, comp in todo:
+        try:
+            data = real_library(ctx, fn_set, comp, data_dir)
+        except Exception as e:
+            rep.fail("broken-correspondence", "real-library run failed: %s" % str(e)[-800:], "C05:real-driver", theorem="search on real libraries")
+            continue
+        maxp = data["maxp"]
+        uniques = [{"n": None, "nll": tonum(u["row"][0]), "theta": [tonum(t) for t in u["row"][1:]], "flat": [tonum(t) for t in u["fish"]]}
+                   for u in data["uniques"]]
+        lib = {"maxp": maxp, "exact": False, "uniques": uniques, "variants": [], "P": 1, "broad": True}
+        st = {"functions": len(data["variants"]), "with_chain": 0, "finite_codelen_with_chain": 0, "nan_chain": 0, "checked_likelihood": 0}
+        for dv in data["variants"]:
+            v = {"fcn": dv["fcn"], "match": dv["match"], "n": dv["n"], "chain": [], "texts": list(dv["chain"]), "table": None, "dflt": None,
+                 "sympify": "ok"}
+            u = uniques[dv["match"]]
+            if any(isinstance(t, str) for t in u["theta"]):
+                continue
+            rep.case(key=None, nontrivial=False)
+            st["with_chain"] += bool(dv["chain"])
+            st["nan_chain"] += "nan" in dv["chain"]
+            cl = float(dv["row"][1])
+            st["finite_codelen_with_chain"] += bool(dv["chain"]) and math.isfinite(cl)
+            try:
+                out = spec_check(lib, v, dv["row"], chain_texts=v["texts"])
+            except Exception as e:
+                out = [("C05:oracle-error", "the independent oracle failed on this row: %s: %s" % (type(e).__name__, e), None, None)]
+            # the variant's own string, evaluated by the real likelihood at the reported parameters, gives the reported likelihood
+            nll = float(dv["row"][0])
+            at = dv["nll_at_reported"]
+            if not out and at is not None and math.isfinite(cl) and math.isfinite(nll) and dv["n"] > 0:
+                st["checked_likelihood"] += 1
+                if at.startswith("EXC") or not (abs(float(at) - nll) <= 1e-4 * max(1.0, abs(nll))):
+                    out = [("C05:real:likelihood-at-reported-parameters",
+                            "the function evaluated at its reported parameters has likelihood %s, the row reports %r" % (at, nll), at, nll)]
+            for key, msg, obs, exp in out:
+                counts[key] = counts.get(key, 0) + 1
+                if key in reported:
+                    continue
+                reported.add(key)
+                rep.fail("broken-correspondence" if key == "C05:oracle-error" else "failing-input", "%s n=%d: %s" % (fn_set, comp, msg), key,
+                         input={"library": "%s compl_%d (generated and fitted in the scratch copy, Gaussian data y=1.7x^2+noise, 24 points)" % (fn_set, comp),
+                                "function": dv["fcn"], "unique": data["uniques"][dv["match"]]["fcn"], "chain": dv["chain"],
+                                "theta_u": data["uniques"][dv["match"]]["row"][1:], "F_u_flat_upper": data["uniques"][dv["match"]]["fish"],
+                                "nll_u": data["uniques"][dv["match"]]["row"][0]},
+                         observed={"reported_row": dv["row"], "detail": obs}, expected=exp, theorem="C05 stated on codelen_matches (real library)")
+        stats["%s_%d" % (fn_set, comp)] = st
+    shutil.rmtree(data_dir, ignore_errors=True)
+    rep.extra["search_real_libraries"] = stats
+    rep.extra["search_rows_outside_double_range_not_judged"] = dict(SKIPPED)
+    rep.extra["search_real_violation_counts"] = counts
 
 
-TRUSTED = []
-ASSUMPTIONS = []
-LEVEL_TEXT = ""
-LEVEL_NOTE = ""
-TECHNIQUE = ""
+TRUSTED = [
+    "Coq 8.16.1 kernel + vm_compute (no native_compute)",
+    "Print Assumptions: 17 of the 21 C05 theorems are closed under the global context (composition, symmetric unpacking, two-sided "
+    "Jacobian inverse, transfer_fisher and the invariant p'^2 F' = theta^2 F, convert_ok_iff, snap_pattern_same, row_total, irregular_iff, "
+    "the search characterisation, transfer_params, row_recoverable, nll_reported, codelen_finite_iff, unrecoverable_never_finite, "
+    "exception_gives_inf); deriv_mono_is_derivative uses ClassicalDedekindReals.sig_forall_dec and "
+    "FunctionalExtensionality.functional_extensionality_dep; lt1_real adds ClassicalDedekindReals.sig_not_dec; denote_finite and "
+    "codelen_invariant add Classical_Prop.classic (through ln) -- the standard library's axioms of Reals, nothing of our own",
+    "hand-written models coq/Model/Subs.v (simplifier.convert_params for monomial maps) and coq/Model/Match.v (body of match.main's loop), "
+    "tied on every run by running the REAL match.main on generated libraries (stub likelihood keyed on which parameters are zero, "
+    "1-3 stand-in ranks) and comparing every row of codelen_matches with Match.row evaluated by vm_compute",
+    "sympy (sympify, Array.subs, jacobian, lambdify) and LAPACK's inverse are oracles: the model uses the symbolic composite, the analytic "
+    "derivative and the analytic inverse (proved two-sided inverse of the Jacobian of a generalised permutation); validated by the "
+    "correspondence and by the independent numeric oracle of search (mpmath chain rule, 40 digits)",
+    "float arithmetic is exact or far from every decision on the generated inputs (theta = +-2^a, F = {3,12,48}*4^b in 'exact' libraries, so "
+    "theta^2 F/12 = 4^d exactly; otherwise at relative distance >= 0.1 from the threshold); text round trip '%.7e' is exact on the inputs "
+    "(checked when generating) and compared within 2e-7 / 1e-6 on the outputs",
+    "MPI stand-in harness/fakempi; coreutils cat/find/sort -V/rm as called through os.system; the stub likelihood of harness/corr/c05_impl.py",
+]
+ASSUMPTIONS = [
+    "executable family = monomial maps a_i -> c*a_j or c/a_j (identity, sign flip, reciprocal, swap/permutation/rename, scalings) and their "
+    "compositions; roots, exp, log_abs, squares and powers of Abs are OUTSIDE the Coq model and are only exercised numerically by search "
+    "(synthetic libraries with those steps and the real keep_duplicates libraries)",
+    "a reciprocal evaluated at theta_j = 0 (inf/NaN entering LAPACK) is the model's outcome Irregular: only 'the code length is not finite' "
+    "is claimed and checked for it",
+    "the unique's fitted parameters are finite numbers; the flattened Hessian row has max_param(max_param+1)/2 entries (entries may be "
+    "NaN/inf: modelled with IEEE special-value rules, rounding not modelled)",
+    "dictionary keys are distinct parameter symbols (a Python dict); a dictionary on which sympy raises is the abstract step SRaise",
+    "the likelihood (fop) is an arbitrary total function list Q -> float class; an exception inside run_sympify/lambdify/the first "
+    "evaluation is the flag reeval=false (the row is nan); exceptions of negloglike inside the subset search are not modelled "
+    "(the shipped likelihoods catch everything and return inf)",
+    "float rounding of log in the final formula is not modelled: the structure's real value is compared with the file's 8 digits",
+    "libraries with a single unique function make load_loglike raise (genfromtxt returns 1-D): outside C05's quantifier",
+]
+LEVEL_TEXT = ("Machine-checked theorems (Coq) on a model of match.main's per-variant logic and of simplifier.convert_params, for EVERY unique "
+              "likelihood (finite/inf/NaN), parameter vector, Hessian row, chain of recorded substitutions in the monomial family (any length, "
+              "incl. 'nan' and raising steps), likelihood function and rank slice: the folded substitution vector denotes s1 o ... o sn; for "
+              "generalised-permutation composites the code's J^-T F J^-1 has diagonal F_jj/(dp'_i/dtheta_j)^2 with the exact invariant "
+              "p'^2 F' = theta^2 F (hence the same snapping pattern and, over the reals, the same code length as the unique); reported "
+              "parameters are sigma(theta_u) with zeros exactly at the cleared positions; the reported likelihood is the unique's, or the "
+              "variant's own likelihood at the reported parameters, or nan; a chain containing nan never gets a finite code length; an exact "
+              "iff for finiteness; the loop body never raises. A test sees one library; the theorems quantify over all of them.")
+LEVEL_NOTE = ("Trusted: Coq kernel/vm_compute; hand-written models tied by running the real match.main on generated libraries under 1-3 ranks "
+              "each run; sympy/LAPACK are oracles validated numerically; Reals axioms for the ln statements. Only validated numerically (not "
+              "proved): non-monomial substitutions (roots, exp, log, powers) and the reciprocal-at-zero corner. Observation, not a violation: "
+              "match.py's subset search keeps the pre-422d8c0 shape (only the singleton round decides; a larger finite subset is discarded) -- "
+              "characterised by theorems C05_search_is_last_round / C05_singles_result. Two defects found through this property were repaired "
+              "in /repo (e814972 guard, 4f4eabe stale likelihood); their replays are kept as corpus cases of search.")
+TECHNIQUE = ("Coq proof over hand-written Gallina models (exact rationals + IEEE special values, finite sums for the matrix law, Reals for "
+             "ln/derivatives) + vm_compute correspondence against the real match.main under 1-3 stand-in ranks + independent mpmath "
+             "chain-rule oracle on synthetic (broader family) and real core_maths/keep_duplicates libraries fitted with the real GaussLikelihood")
